@@ -1227,4 +1227,18 @@ def rule_literal_parsed(ctx):
             for x, _ in A.find(fn.block, "Expr::MethodCall"):
                 if x["method"]["sym"] == "value" and A.render(x["receiver"]).endswith("lit"):
                     ctx.cur.instances += 1
+                # the literal's *value* is what format_args! sees; its source spelling (`lit.token()`, the token stream
+                # rendered back to text) still carries the escapes: `\u{1F980}` shows braces that are not placeholders
+                rr = A.render(x["receiver"])
+                if (x["method"]["sym"] == "token" and re.search(r"(^|\.|\b)lit$", rr)) or (x["method"]["sym"] == "to_string" and re.search(r"\blit\.(token|to_token_stream|into_token_stream)\(\)$", rr)):
+                    if x["method"]["sym"] == "to_string" or not any(True for _ in ()):
+                        key = f"{rel}::{fn.qual}:source-spelling"
+                        ctx.instance(f"lit-parsed:{key}")
+                        ctx.report(
+                            f"lit-parsed:{key}",
+                            ctx.where(f, x["method"]),
+                            f"`{fn.qual}` reads the format literal's *source spelling* (`{rr}.{x['method']['sym']}()`) instead of its value: an escape such as `\\u{{1F980}}` / `\\x7b` exposes braces that format_args! never sees, "
+                            "the literal no longer parses and all its placeholders (bounds, Pointer re-binding, `_variant`) are silently dropped",
+                            {},
+                        )
     ctx.note(f"{n} raw-text tests on format literals")
